@@ -1278,7 +1278,7 @@ def r516(rep: Report, ctx: Ctx) -> None:
     from .effspec import check_table
     from .walkspec import TABLE
     rep.rule("R5.16", "gate tree -> node logic -> logic block: translation, "
-             "initial block state, merge validation, Event -> Node", 36)
+             "initial block state, merge validation, Event -> Node", 38)
     check_table(rep, ctx, "R5.16", TABLE, list(TABLE))
 
 
